@@ -431,6 +431,7 @@ type tokReader struct {
 	t      []string
 	i      int
 	inputs []guardedBuf
+	exact  bool // hand out buffers whose capacity equals their length (a slice expression beyond the length panics)
 }
 
 func (r *tokReader) next() (string, error) {
@@ -471,6 +472,11 @@ func (r *tokReader) hex() ([]byte, error) {
 	b0, err := unhx(s)
 	if err != nil {
 		return nil, err
+	}
+	if r.exact {
+		e := make([]byte, len(b0))
+		copy(e, b0)
+		return e, nil
 	}
 	full := make([]byte, len(b0)+16)
 	copy(full, b0)
